@@ -75,11 +75,13 @@ __CPROVER_ensures(nv_cell_inits == 1 && nv_cell_bias == self->m_bias.id && nv_ce
 /* one contribution per learner, the learner at the ghost position exactly once */ \
 __CPROVER_ensures(nv_cell_adds == self->m_wlearners.size && ((0 <= nv_gl && (uint64_t)nv_gl < self->m_wlearners.size) ? nv_gl_adds == 1 : nv_gl_adds == 0))
 
+/* written over the loop variable alone (no __end1): fits the range-for and the explicit iterator loop */
+#define NV_LV NV_LOOPVAR_gmodel_do_predict_1
 #define NV_LOOP_gmodel_do_predict_1 \
-__CPROVER_assigns(NV_LOOPVAR_gmodel_do_predict_1.pos, nv_cell_adds, nv_gl_adds, nv_elem) \
-__CPROVER_loop_invariant(0 <= NV_LOOPVAR_gmodel_do_predict_1.pos && NV_LOOPVAR_gmodel_do_predict_1.pos <= __end1.pos && NV_LOOPVAR_gmodel_do_predict_1.of == &self->m_wlearners && __end1.pos == (int64_t)self->m_wlearners.size) \
-__CPROVER_loop_invariant(nv_cell_adds <= 1000000000ULL && (int64_t)nv_cell_adds == NV_LOOPVAR_gmodel_do_predict_1.pos && nv_gl_adds == ((0 <= nv_gl && nv_gl < NV_LOOPVAR_gmodel_do_predict_1.pos) ? 1 : 0)) \
-__CPROVER_decreases(__end1.pos - NV_LOOPVAR_gmodel_do_predict_1.pos)
+__CPROVER_assigns(NV_LV.pos, nv_cell_adds, nv_gl_adds, nv_elem) \
+__CPROVER_loop_invariant(0 <= NV_LV.pos && NV_LV.pos <= (int64_t)self->m_wlearners.size && NV_LV.of == &self->m_wlearners) \
+__CPROVER_loop_invariant(nv_cell_adds <= 1000000000ULL && (int64_t)nv_cell_adds == NV_LV.pos && nv_gl_adds == ((0 <= nv_gl && nv_gl < NV_LV.pos) ? 1 : 0)) \
+__CPROVER_decreases((int64_t)self->m_wlearners.size - NV_LV.pos)
 
 /* ================================================================================================ learner_t::predict
  * predict(dataset, samples, outputs): do_predict exactly once, with the SAME dataset / samples / outputs (after the
